@@ -31,6 +31,7 @@ fn main() {
     }
     return;
   }
+  if id == "first-use" { std::process::exit(scen::first_use_child_main(&args[2..])); }
   if id == "c18-first" { std::process::exit(c18::first_use_child_main(&args[2..])); }
   if id == "c18-long" { std::process::exit(c18::long_child_main(&args[2..])); }
   if id == "c09-deep" { std::process::exit(c09::deep_child_main(&args[2..])); }
@@ -62,16 +63,24 @@ fn main() {
         $( $name => {
           if args[2] == "--replay" {
             let file = args.get(3).map(|s| s.as_str()).unwrap_or("");
-            std::process::exit(engine::replay($name, $m::subs(), file));
+            let mut subs = $m::subs();
+            subs.extend(scen::subs($name));
+            std::process::exit(engine::replay($name, subs, file));
           }
           let tier = match args[2].as_str() { "quick" => Tier::Quick, "thorough" => Tier::Thorough, other => { eprintln!("unknown tier {other}"); std::process::exit(2) } };
           let ctx = Ctx::new($name, tier, seed);
-          ctx.saved_cases($m::subs());
-          let meta = std::thread::scope(|sc| {
+          let mut subs = $m::subs();
+          subs.extend(scen::subs($name));
+          ctx.saved_cases(subs);
+          let mut meta = std::thread::scope(|sc| {
             sc.spawn(|| ctx.profile_child());
             sc.spawn(|| ctx.env_children());
             $m::run(&ctx)
           });
+          // schedules as input (threads at a gate, first use in fresh processes): after the jobs, the cores are free
+          if let Some(rule) = scen::run_extra(&ctx, $name) {
+            meta.rule.push_str(&rule);
+          }
           let out = engine::finish(ctx, meta);
           std::process::exit(out.exit_code);
         } )*
